@@ -285,18 +285,21 @@ class C09:
                                      summary="%d request(s) reached more than one backend socket" % r["duplicated"], counts=r))
             if r["lost"] and r["kernel_udp_errors"] == 0:
                 # is every lost request one the proxy itself gave up on (send to a backend whose socket was just closed)?
-                gave_up = set(re.findall(r"Fail to send the message to the backend.*?Call-ID: ([\w-]+)", log))
+                # (read off the proxy's ERROR-level log entries by their CONTENT, not their wording - a reworded message must
+                # not turn the known finding into an alarm: the entry of sendToBackend carries the message it gave up on)
+                errs = [l for l in log.splitlines() if "\tERROR\t" in l or '"level":"error"' in l.lower()]
+                gave_up = set(i for l in errs for i in re.findall(r"Call-ID: ([\w-]+)", l))
                 explained = [i for i in lost_ids if i in gave_up]
                 # the known finding is specifically a WRITE on the socket of a backend that was just closed: UDPBackend.Send
-                # logs "Fail to send message to backend" (no "the") for each such write.  A request the pool gave up on
-                # without any write attempt ("fail to send msg to all the backend", "fail to get next backend") is not it.
-                write_failures = len(re.findall(r"Fail to send message to backend", log))
+                # logs one error entry naming that backend's address (and no message) for each such write.  A request the pool
+                # gave up on without any write attempt ("fail to send msg to all the backend", "fail to get next backend") is not it.
+                write_failures = len([l for l in errs if "Call-ID:" not in l and re.search(r"\d+\.\d+\.\d+\.\d+:5070", l)])
                 if len(explained) == len(lost_ids) and len(lost_ids) == r["lost"] and write_failures >= len(lost_ids):
                     failures.append(dict(base, kind="mismatch", has_input=True, key="request-dropped-when-backend-removed",
                                          summary="%d of %d requests were dropped by the proxy: RoundRobinBackend.Send picked a backend that the resolver "
                                                  "goroutine removed (socket closed) before the write; the send error is logged and the request is not "
                                                  "retried on another backend (ids %s)" % (r["lost"], r["sent"], ",".join(lost_ids[:5])),
-                                         counts=r, log="\n".join(l for l in log.splitlines() if "Fail to send" in l)[:3000]))
+                                         counts=r, log="\n".join(errs)[:3000]))
                 else:
                     failures.append(dict(base, kind="mismatch", has_input=True, key="lost-requests",
                                          summary="%d of %d requests never reached a backend socket although the kernel dropped nothing (ids %s)" % (
